@@ -221,7 +221,9 @@ class World(object):
                 if mgr is None:
                     continue
                 for key, ct in list(mgr.cache.items()):
-                    self.disk[(op['c'], which, n)] = json.dumps(ct.to_dict())
+                    # the JSON text is what is "on disk"; the cache key travels with it as plain data so
+                    # that the harness never has to know how the manager builds its keys
+                    self.disk[(op['c'], which, n)] = (key, json.dumps(ct.to_dict()))
                     n += 1
             self.probes['saved_templates'] += n
             return 'saved:%d' % n
@@ -229,15 +231,13 @@ class World(object):
             from pybufrkit.templatecompiler import loads_compiled_template
             c = self.clients[op['c']]
             n = 0
-            for (cc, which, _j), text in sorted(self.disk.items()):
+            for (cc, which, _j), (key, text) in sorted(self.disk.items(), key=lambda kv: kv[0]):
                 if cc != op['c']:
                     continue
                 mgr = c[which].compiled_template_manager
                 if mgr is None or mgr.cache_max <= 0:
                     continue
                 ct = loads_compiled_template(text)
-                d = json.loads(text)
-                key = (tuple(d['template_ids']), ct.table_group_key)
                 if len(mgr.cache) >= mgr.cache_max:
                     mgr.cache.popitem()
                 mgr.cache[key] = ct
@@ -308,9 +308,12 @@ def ref_spec(plan, i, compiled_override=None):
     if k not in COMPARED:
         return None
     chain = []
+    # the reference repeats the compile mode of each role: client 0 decodes, client 1 encodes
+    clients = plan['clients']
     if 'h' in op:
         dop = plan['ops'][op['h']]
-        client = dop['c']
+        dcomp = clients[dop['c']].get('compiled') is not None
+        ecomp = clients[op['c']].get('compiled') is not None if 'c' in op else False
         # m.wire() is an explicit, documented mutation: a handle wired by an earlier `wire` op is the
         # same thing as a handle decoded with wiring on
         wired = dop.get('wire', True) or any(o['op'] == 'wire' and o.get('h') == op['h'] for o in plan['ops'][:i])
@@ -319,26 +322,29 @@ def ref_spec(plan, i, compiled_override=None):
         o2 = dict(op)
         o2['h'] = 0
         if 'c' in o2:
-            # the encoder of a (possibly different) client takes part: its compiled flag matters too
-            o2['c'] = 0
+            o2['c'] = 1
         chain.append(o2)
     else:
-        client = op['c']
         mi = op['m']
         o2 = dict(op)
-        o2['c'] = 0
         o2['m'] = 0
+        if k in ('encode', 'encode_bad'):
+            dcomp, ecomp = False, clients[op['c']].get('compiled') is not None
+            o2['c'] = 1
+        else:
+            dcomp, ecomp = clients[op['c']].get('compiled') is not None, False
+            o2['c'] = 0
         chain.append(o2)
-    comp = plan['clients'][client].get('compiled') is not None
-    if 'h' in op and 'c' in op:
-        comp = comp or plan['clients'][op['c']].get('compiled') is not None
     if compiled_override is not None:
-        comp = compiled_override
+        dcomp = dcomp and compiled_override
+        ecomp = ecomp and compiled_override
     msg = plan['msgs'][mi]
-    key = _h(json.dumps([msg['ref'], _h(msg['hex']), comp, [dict((a, b) for a, b in c.items() if a not in ('c', 'm', 'h'))
-                                                            for c in chain]], sort_keys=True))
+    key = _h(json.dumps([msg['ref'], _h(msg['hex']), dcomp, ecomp,
+                         [dict((a, b) for a, b in c.items() if a not in ('c', 'm', 'h')) for c in chain]],
+                        sort_keys=True))
     mini = {'engine': 'histsim', 'family': 'ref', 'seed': 0, 'limit': 50,
-            'clients': [{'compiled': 8 if comp else None, 'root': 'bundled'}],
+            'clients': [{'compiled': 8 if dcomp else None, 'root': 'bundled'},
+                        {'compiled': 8 if ecomp else None, 'root': 'bundled'}],
             'msgs': [msg], 'ops': chain}
     return key, mini
 
@@ -483,7 +489,25 @@ def gen_plan(family, seed, msgs, tier='quick'):
     names = [w[0] for w in weights]
     wts = [w[1] for w in weights]
     block_at = rng.randint(0, nops - 1) if (limit == 50 and rng.random() < 0.35) else -1
+    # the durability scenario of C08: use, save, restart, load, use again (same client, same message)
+    durable = [ci for ci, c in enumerate(clients) if (c['compiled'] or 0) >= 1]
+    save_at = rng.randint(0, nops - 1) if (c08 and durable and rng.random() < 0.6) else -1
     for step in range(nops):
+        if step == save_at:
+            c = rng.choice(durable)
+            mk = [i for i, m in enumerate(chosen) if m['marker']]
+            mi = rng.choice(mk) if (mk and rng.random() < 0.6) else rng.randrange(len(chosen))
+            first = rng.choice(['decode', 'decode', 'encode'])
+            again = rng.choice(['decode', 'decode', 'encode', first])
+            blk = [{'op': first, 'c': c, 'm': mi}, {'op': 'save_compiled', 'c': c}]
+            if rng.random() < 0.8:
+                blk.append({'op': 'restart', 'c': c})
+            blk += [{'op': 'load_compiled', 'c': c}, {'op': again, 'c': c, 'm': mi}]
+            for o in blk:
+                if o['op'] == 'decode':
+                    o.update({'wire': True, 'ive': False})
+                    handles.append((len(ops), o['m'], chosen[o['m']]['nsub'], True))
+                ops.append(o)
         if step == block_at:
             # reach the real limit: more than 50 distinct keys through both roots
             extra = [{'op': 'lookup', 'version': v, 'root': r} for r in ('bundled', 'alias') for v in versions]
